@@ -14,8 +14,8 @@ package golang
 //@ ensures [fresh] fresh(result)
 //@ ensures [verdicts] forall i int :: 0 <= i && i < len(result) ==> result[i] == rules.UNKNOWN || result[i] == rules.APPROVED || result[i] == rules.DENIED || result[i] == rules.FAILED
 //@ ensures [nonnil] forall i int :: 0 <= i && i < len(rulesData) && result[i] == rules.APPROVED ==> rulesData[i] != nil
-//@ ensures [att] action == ruler.ActionSignBeaconAttestation ==> (forall i int :: 0 <= i && i < len(rulesData) && result[i] == rules.APPROVED ==> hastype(rulesData[i].Data, "*rules.SignBeaconAttestationData") && attApproved(rulesData[i].PubKey, unbox(rulesData[i].Data, "*rules.SignBeaconAttestationData")))
-//@ ensures [prop] action == ruler.ActionSignBeaconProposal ==> (forall i int :: 0 <= i && i < len(rulesData) && result[i] == rules.APPROVED ==> hastype(rulesData[i].Data, "*rules.SignBeaconProposalData") && propApproved(rulesData[i].PubKey, unbox(rulesData[i].Data, "*rules.SignBeaconProposalData")))
+//@ ensures [att] action == ruler.ActionSignBeaconAttestation ==> (forall i int :: 0 <= i && i < len(rulesData) && result[i] == rules.APPROVED ==> hastype(rulesData[i].Data, "*rules.SignBeaconAttestationData") && attApproved(bytes(rulesData[i].PubKey), unbox(rulesData[i].Data, "*rules.SignBeaconAttestationData")))
+//@ ensures [prop] action == ruler.ActionSignBeaconProposal ==> (forall i int :: 0 <= i && i < len(rulesData) && result[i] == rules.APPROVED ==> hastype(rulesData[i].Data, "*rules.SignBeaconProposalData") && propApproved(bytes(rulesData[i].PubKey), unbox(rulesData[i].Data, "*rules.SignBeaconProposalData")))
 //@ ensures [gen] action == ruler.ActionSign ==> (forall i int :: 0 <= i && i < len(rulesData) && result[i] == rules.APPROVED ==> hastype(rulesData[i].Data, "*rules.SignData") && prefix4(unbox(rulesData[i].Data, "*rules.SignData").Domain) != ATT && prefix4(unbox(rulesData[i].Data, "*rules.SignData").Domain) != PROP)
 //@ ensures [distinct] locking(action) ==> (forall i int, j int :: 0 <= i && i < j && j < len(rulesData) && result[i] == rules.APPROVED && result[j] == rules.APPROVED ==> bytes(rulesData[i].PubKey) != bytes(rulesData[j].PubKey))
 //@ ensures [access] action == ruler.ActionAccessAccount && credentials != nil && credentials.Client != "" && (forall j int :: 0 <= j && j < len(rulesData) ==> rulesData[j] != nil && rulesData[j].Data != nil) ==> (forall i int :: 0 <= i && i < len(rulesData) && hastype(rulesData[i].Data, "*rules.AccessAccountData") ==> result[i] == rules.APPROVED)
@@ -50,8 +50,8 @@ package golang
 //@ ensures [len] len(result) == len(rulesData)
 //@ ensures [fresh] fresh(result)
 //@ ensures [verdicts] forall i int :: 0 <= i && i < len(result) ==> result[i] == rules.UNKNOWN || result[i] == rules.APPROVED || result[i] == rules.DENIED || result[i] == rules.FAILED
-//@ ensures [att] action == ruler.ActionSignBeaconAttestation ==> (forall i int :: 0 <= i && i < len(rulesData) && result[i] == rules.APPROVED ==> hastype(rulesData[i].Data, "*rules.SignBeaconAttestationData") && attApproved(rulesData[i].PubKey, unbox(rulesData[i].Data, "*rules.SignBeaconAttestationData")))
-//@ ensures [prop] action == ruler.ActionSignBeaconProposal ==> (forall i int :: 0 <= i && i < len(rulesData) && result[i] == rules.APPROVED ==> hastype(rulesData[i].Data, "*rules.SignBeaconProposalData") && propApproved(rulesData[i].PubKey, unbox(rulesData[i].Data, "*rules.SignBeaconProposalData")))
+//@ ensures [att] action == ruler.ActionSignBeaconAttestation ==> (forall i int :: 0 <= i && i < len(rulesData) && result[i] == rules.APPROVED ==> hastype(rulesData[i].Data, "*rules.SignBeaconAttestationData") && attApproved(bytes(rulesData[i].PubKey), unbox(rulesData[i].Data, "*rules.SignBeaconAttestationData")))
+//@ ensures [prop] action == ruler.ActionSignBeaconProposal ==> (forall i int :: 0 <= i && i < len(rulesData) && result[i] == rules.APPROVED ==> hastype(rulesData[i].Data, "*rules.SignBeaconProposalData") && propApproved(bytes(rulesData[i].PubKey), unbox(rulesData[i].Data, "*rules.SignBeaconProposalData")))
 //@ ensures [gen] action == ruler.ActionSign ==> (forall i int :: 0 <= i && i < len(rulesData) && result[i] == rules.APPROVED ==> hastype(rulesData[i].Data, "*rules.SignData") && prefix4(unbox(rulesData[i].Data, "*rules.SignData").Domain) != ATT && prefix4(unbox(rulesData[i].Data, "*rules.SignData").Domain) != PROP)
 //@ ensures [access] action == ruler.ActionAccessAccount && credentials != nil && credentials.Client != "" && (forall j int :: 0 <= j && j < len(rulesData) ==> rulesData[j] != nil && rulesData[j].Data != nil) ==> (forall i int :: 0 <= i && i < len(rulesData) && hastype(rulesData[i].Data, "*rules.AccessAccountData") ==> result[i] == rules.APPROVED)
 //@ ensures [dbframe] forall k Bytes :: (forall i int :: !(0 <= i && i < len(rulesData) && ((action == ruler.ActionSignBeaconAttestation && k == attKey(bytes(rulesData[i].PubKey))) || (action == ruler.ActionSignBeaconProposal && k == propKey(bytes(rulesData[i].PubKey)))))) ==> ((k in db) <==> old(k in db)) && db[k] == old(db[k])
@@ -65,8 +65,9 @@ package golang
 
 // ---- the dispatch under the locks ----
 
-//@ spec attApproved(pk []byte, d *rules.SignBeaconAttestationData) bool = old(wmAttOk(bytes(pk))) && attOK(old(wmAttS(bytes(pk))), old(wmAttT(bytes(pk))), d.Source.Epoch, d.Target.Epoch, prefix4(d.Domain)) && wmAttOk(bytes(pk)) && wmAttS(bytes(pk)) == d.Source.Epoch && wmAttT(bytes(pk)) == d.Target.Epoch
-//@ spec propApproved(pk []byte, d *rules.SignBeaconProposalData) bool = old(wmPropOk(bytes(pk))) && propOK(old(wmPropL(bytes(pk))), d.Slot, prefix4(d.Domain)) && wmPropOk(bytes(pk)) && wmPropL(bytes(pk)) == d.Slot
+// (the key is passed as its bytes now: old() then only reaches the store, not the byte heap the key is read from)
+//@ spec attApproved(pk Bytes, d *rules.SignBeaconAttestationData) bool = old(wmAttOk(pk)) && attOK(old(wmAttS(pk)), old(wmAttT(pk)), d.Source.Epoch, d.Target.Epoch, prefix4(d.Domain)) && wmAttOk(pk) && wmAttS(pk) == d.Source.Epoch && wmAttT(pk) == d.Target.Epoch
+//@ spec propApproved(pk Bytes, d *rules.SignBeaconProposalData) bool = old(wmPropOk(pk)) && propOK(old(wmPropL(pk)), d.Slot, prefix4(d.Domain)) && wmPropOk(pk) && wmPropL(pk) == d.Slot
 
 //@ func (*Service).assembleMetadata
 //@ ensures [ok] result1 == nil ==> result0 != nil && fresh(result0) && result0.Account == accountName && result0.PubKey == pubKey && credentials != nil && result0.Client == credentials.Client && result0.IP == credentials.IP
@@ -75,6 +76,16 @@ package golang
 
 //@ func (*Service).runRules$1
 //@ worker i offset entries
+//@ focus dbframe : range dbframe
+//@ focus att-oldok : range att-oldok dbframe
+//@ focus att-sound : range att-sound dbframe
+//@ focus att-rec : range att-rec dbframe
+//@ focus att-type : range att-type
+//@ focus prop : range prop dbframe
+//@ focus gen : range gen
+//@ focus access : range access
+//@ focus verdict : range verdict
+//@ focus frame : range frame
 //@ requires s != nil && s.rules != nil
 //@ requires [extent] 0 <= offset && entries >= 1 && offset + entries <= len(rulesData)
 //@ requires [lens] len(results) == len(rulesData)
@@ -83,8 +94,8 @@ package golang
 //@ modifies results[offset:offset+entries], each(i, offset, offset+entries, action == ruler.ActionSignBeaconAttestation && rulesData[i] != nil, db[attKey(bytes(rulesData[i].PubKey))]), each(i, offset, offset+entries, action == ruler.ActionSignBeaconProposal && rulesData[i] != nil, db[propKey(bytes(rulesData[i].PubKey))])
 //@ ensures-each [verdict] rulesData[i] != nil ==> results[i] == rules.APPROVED || results[i] == rules.DENIED || results[i] == rules.FAILED
 //@ ensures-each [skipped] rulesData[i] == nil ==> results[i] == old(results[i])
-//@ ensures-each [att] action == ruler.ActionSignBeaconAttestation && rulesData[i] != nil && results[i] == rules.APPROVED ==> hastype(rulesData[i].Data, "*rules.SignBeaconAttestationData") && attApproved(rulesData[i].PubKey, unbox(rulesData[i].Data, "*rules.SignBeaconAttestationData"))
-//@ ensures-each [prop] action == ruler.ActionSignBeaconProposal && rulesData[i] != nil && results[i] == rules.APPROVED ==> hastype(rulesData[i].Data, "*rules.SignBeaconProposalData") && propApproved(rulesData[i].PubKey, unbox(rulesData[i].Data, "*rules.SignBeaconProposalData"))
+//@ ensures-each [att] action == ruler.ActionSignBeaconAttestation && rulesData[i] != nil && results[i] == rules.APPROVED ==> hastype(rulesData[i].Data, "*rules.SignBeaconAttestationData") && attApproved(bytes(rulesData[i].PubKey), unbox(rulesData[i].Data, "*rules.SignBeaconAttestationData"))
+//@ ensures-each [prop] action == ruler.ActionSignBeaconProposal && rulesData[i] != nil && results[i] == rules.APPROVED ==> hastype(rulesData[i].Data, "*rules.SignBeaconProposalData") && propApproved(bytes(rulesData[i].PubKey), unbox(rulesData[i].Data, "*rules.SignBeaconProposalData"))
 //@ ensures-each [gen] action == ruler.ActionSign && rulesData[i] != nil && results[i] == rules.APPROVED ==> hastype(rulesData[i].Data, "*rules.SignData") && prefix4(unbox(rulesData[i].Data, "*rules.SignData").Domain) != ATT && prefix4(unbox(rulesData[i].Data, "*rules.SignData").Domain) != PROP
 //@ ensures-each [access] action == ruler.ActionAccessAccount && credentials != nil && credentials.Client != "" && rulesData[i] != nil && hastype(rulesData[i].Data, "*rules.AccessAccountData") ==> results[i] == rules.APPROVED
 //@ loop #1
@@ -95,7 +106,7 @@ package golang
 //@ invariant [att-oldok] forall j int :: offset <= j && j < i && action == ruler.ActionSignBeaconAttestation && rulesData[j] != nil && results[j] == rules.APPROVED ==> old(wmAttOk(bytes(rulesData[j].PubKey)))
 //@ invariant [att-sound] forall j int :: offset <= j && j < i && action == ruler.ActionSignBeaconAttestation && rulesData[j] != nil && results[j] == rules.APPROVED ==> attOK(old(wmAttS(bytes(rulesData[j].PubKey))), old(wmAttT(bytes(rulesData[j].PubKey))), unbox(rulesData[j].Data, "*rules.SignBeaconAttestationData").Source.Epoch, unbox(rulesData[j].Data, "*rules.SignBeaconAttestationData").Target.Epoch, prefix4(unbox(rulesData[j].Data, "*rules.SignBeaconAttestationData").Domain))
 //@ invariant [att-rec] forall j int :: offset <= j && j < i && action == ruler.ActionSignBeaconAttestation && rulesData[j] != nil && results[j] == rules.APPROVED ==> wmAttOk(bytes(rulesData[j].PubKey)) && wmAttS(bytes(rulesData[j].PubKey)) == unbox(rulesData[j].Data, "*rules.SignBeaconAttestationData").Source.Epoch && wmAttT(bytes(rulesData[j].PubKey)) == unbox(rulesData[j].Data, "*rules.SignBeaconAttestationData").Target.Epoch
-//@ invariant [prop] forall j int :: offset <= j && j < i && action == ruler.ActionSignBeaconProposal && rulesData[j] != nil && results[j] == rules.APPROVED ==> hastype(rulesData[j].Data, "*rules.SignBeaconProposalData") && propApproved(rulesData[j].PubKey, unbox(rulesData[j].Data, "*rules.SignBeaconProposalData"))
+//@ invariant [prop] forall j int :: offset <= j && j < i && action == ruler.ActionSignBeaconProposal && rulesData[j] != nil && results[j] == rules.APPROVED ==> hastype(rulesData[j].Data, "*rules.SignBeaconProposalData") && propApproved(bytes(rulesData[j].PubKey), unbox(rulesData[j].Data, "*rules.SignBeaconProposalData"))
 //@ invariant [gen] forall j int :: offset <= j && j < i && action == ruler.ActionSign && rulesData[j] != nil && results[j] == rules.APPROVED ==> hastype(rulesData[j].Data, "*rules.SignData") && prefix4(unbox(rulesData[j].Data, "*rules.SignData").Domain) != ATT && prefix4(unbox(rulesData[j].Data, "*rules.SignData").Domain) != PROP
 //@ invariant [frame] forall j int :: !(offset <= j && j < i && rulesData[j] != nil) ==> results[j] == old(results[j])
 //@ invariant [dbframe] forall k Bytes :: (forall j int :: !(offset <= j && j < i && rulesData[j] != nil && ((action == ruler.ActionSignBeaconAttestation && k == attKey(bytes(rulesData[j].PubKey))) || (action == ruler.ActionSignBeaconProposal && k == propKey(bytes(rulesData[j].PubKey)))))) ==> ((k in db) <==> old(k in db)) && db[k] == old(db[k])
@@ -130,7 +141,7 @@ package golang
 //@ ensures [len] len(result) == len(rulesData)
 //@ ensures [fresh] fresh(result)
 //@ ensures [verdicts] forall i int :: 0 <= i && i < len(result) ==> result[i] == rules.UNKNOWN || result[i] == rules.APPROVED || result[i] == rules.DENIED || result[i] == rules.FAILED
-//@ ensures [att] forall i int :: 0 <= i && i < len(result) && result[i] == rules.APPROVED ==> hastype(rulesData[i].Data, "*rules.SignBeaconAttestationData") && attApproved(rulesData[i].PubKey, unbox(rulesData[i].Data, "*rules.SignBeaconAttestationData"))
+//@ ensures [att] forall i int :: 0 <= i && i < len(result) && result[i] == rules.APPROVED ==> hastype(rulesData[i].Data, "*rules.SignBeaconAttestationData") && attApproved(bytes(rulesData[i].PubKey), unbox(rulesData[i].Data, "*rules.SignBeaconAttestationData"))
 //@ ensures [dbframe] forall k Bytes :: (forall i int :: 0 <= i && i < len(rulesData) ==> k != attKey(bytes(rulesData[i].PubKey))) ==> ((k in db) <==> old(k in db)) && db[k] == old(db[k])
 //@ loop #1
 //@ invariant [range] 0 <= _n && _n <= len(rulesData) && len(results) == len(rulesData) && fresh(results)
